@@ -101,6 +101,8 @@ Definition itoks_l (i : pitem (list pt)) : list pt :=
 (* `1.real` would be a float literal followed by a name: the unparser writes (1).real - its own test, on its own text *)
 Definition int_literal (v : expr) : bool := all_digits (render (utoks slot_Attribute_value DQ v)).
 
+Definition is_slice (x : expr) : bool := match x with Slice _ _ _ => true | _ => false end.
+
 Fixpoint pp (slot : nat) (e : expr) {struct e} : list pt :=
   let body :=
     match e with
@@ -171,7 +173,16 @@ Fixpoint pp (slot : nat) (e : expr) {struct e} : list pt :=
                                             PK "for" :: pp slot_comp_target t ++ PK "in" :: pp slot_comp_iter i ++
                                             flat_map (fun c => PK "if" :: pp slot_comp_if c) ifs
                                         end) gs)
-    | Subscript v s => pp slot_Subscript_value v ++ PK "[" :: pp slot_Subscript_slice s ++ [PK "]"]
+    | Subscript v s =>
+        pp slot_Subscript_value v ++ PK "[" ::
+        (match s with
+         | ETuple items =>
+             (* an index tuple that contains a slice is printed without parentheses: a[1:2, 3] *)
+             if existsb is_slice items then
+               join [PK ","] (map (pp slot_Subscript_tuple_item) items) ++ (match items with [_] => [PK ","] | _ => [] end)
+             else pp slot_Subscript_slice s
+         | _ => pp slot_Subscript_slice s
+         end) ++ [PK "]"]
     | Slice a b c =>
         (match a with Some x => pp slot_Slice_lower x | None => [] end) ++ PK ":" ::
         (match b with Some x => pp slot_Slice_upper x | None => [] end) ++ PK ":" ::
@@ -203,6 +214,15 @@ Fixpoint ditems_t (ks : list (option expr)) (vt st : list (list pt)) : list (lis
   end.
 Definition ditems (ks : list (option expr)) (vs : list expr) : list (list pt) :=
   ditems_t ks (map (pp slot_Dict_value) vs) (map (pp slot_Dict_starvalue) vs).
+
+Definition index_toks (s : expr) : list pt :=
+  match s with
+  | ETuple items =>
+      if existsb is_slice items then
+        join [PK ","] (map (pp slot_Subscript_tuple_item) items) ++ (match items with [_] => [PK ","] | _ => [] end)
+      else pp slot_Subscript_slice s
+  | _ => pp slot_Subscript_slice s
+  end.
 
 Definition pbody (e : expr) : list pt :=
   match e with
@@ -245,7 +265,7 @@ Definition pbody (e : expr) : list pt :=
   | ListComp x gs => PK "[" :: pp slot_ListComp_elt x ++ gtoks gs ++ [PK "]"]
   | SetComp x gs => PK "{" :: pp slot_SetComp_elt x ++ gtoks gs ++ [PK "}"]
   | GeneratorExp x gs => pp slot_GeneratorExp_elt x ++ gtoks gs
-  | Subscript v s => pp slot_Subscript_value v ++ PK "[" :: pp slot_Subscript_slice s ++ [PK "]"]
+  | Subscript v s => pp slot_Subscript_value v ++ PK "[" :: index_toks s ++ [PK "]"]
   | Slice a b c =>
       (match a with Some x => pp slot_Slice_lower x | None => [] end) ++ PK ":" ::
       (match b with Some x => pp slot_Slice_upper x | None => [] end) ++ PK ":" ::
@@ -299,6 +319,16 @@ Fixpoint core (e : expr) {struct e} : bool :=
                   (match a with Some x => ec x | None => true end) &&
                   (match b with Some x => ec x | None => true end) &&
                   (match c with Some x => ec x | None => true end)
+              | ETuple items =>
+                  if existsb is_slice items then
+                    forallb (fun x => match x with
+                                      | Slice a b c =>
+                                          (match a with Some y => ec y | None => true end) &&
+                                          (match b with Some y => ec y | None => true end) &&
+                                          (match c with Some y => ec y | None => true end)
+                                      | _ => ec x
+                                      end) items
+                  else ec s
               | _ => ec s
               end
   | Starred v => ec v
@@ -367,7 +397,8 @@ Inductive mode :=
 | MDict (ks : list (option expr)) (vs : list expr)               (* a dict display before an item *)
 | MDSep (ks : list (option expr)) (vs : list expr)               (* ... after an item *)
 | MParams (n : nat) (st : pst)                                   (* the parameters of a lambda, then its body *)
-| MIndex                                                         (* the index of a subscription: an expression or a slice *)
+| MIndex                                                         (* one item of an index: an expression or a slice *)
+| MItems (acc : list expr)                                       (* the index of a subscription: one item, or items separated by commas *)
 | MSliceUp (lower : option expr)                                 (* after the first colon *)
 | MSliceStep (lower upper : option expr).                        (* after the second colon *)
 
@@ -579,6 +610,16 @@ Fixpoint pc (f : nat) (m : mode) (ts : list pt) {struct f} : option (expr * list
               else next (p_name st x None) r
           | _ => None
           end
+    | MItems acc =>
+        if hd_is "]" ts then
+          match acc with [] => None | _ :: _ => Some (ETuple (rev acc), ts) end        (* a trailing comma *)
+        else
+          match pc f' MIndex ts with
+          | Some (e, r) =>
+              if hd_is "," r then pc f' (MItems (e :: acc)) (tl r)
+              else match acc with [] => Some (e, r) | _ :: _ => Some (ETuple (rev (e :: acc)), r) end
+          | None => None
+          end
     | MIndex =>
         if hd_is ":" ts then pc f' (MSliceUp None) (tl ts)
         else
@@ -640,7 +681,7 @@ Fixpoint pc (f : nat) (m : mode) (ts : list pt) {struct f} : option (expr * list
             | _ => None
             end
         | KLBr r =>
-            match pc f' MIndex r with
+            match pc f' (MItems []) r with
             | Some (s, PK s' :: r') => if String.eqb s' "]" then pc f' (MLoop n (Subscript lft s) CNone) r' else None
             | _ => None
             end
